@@ -9,7 +9,7 @@ git -C /repo worktree add -q --detach "$wt" HEAD || exit 9
 trap 'git -C /repo worktree remove --force "$wt" >/dev/null 2>&1; rm -rf "$wt"; git -C /repo worktree prune' EXIT
 demo=$(ls "$sd"/*_test.go | head -1)
 mod="$wt"; case "$pkg" in v2/*) mod="$wt/v2"; rel="./${pkg#v2/}";; *) rel="./$pkg";; esac
-cp "$demo" "$wt/$pkg/zz_seed_demo_test.go"
+mkdir -p "$wt/$pkg"; cp "$demo" "$wt/$pkg/zz_seed_demo_test.go"
 ( cd "$mod" && go test ${SEED_TESTFLAGS:-} -vet=off -count=1 "$rel" >/tmp/evalseed.pre 2>&1 ); pre=$?
 git -C "$wt" apply "$sd/patch.diff" || { echo "PATCH DOES NOT APPLY"; exit 9; }
 ( cd "$mod" && go test ${SEED_TESTFLAGS:-} -vet=off -count=1 "$rel" >/tmp/evalseed.post 2>&1 ); post=$?
